@@ -35,6 +35,7 @@ func TestC01(t *testing.T) {
 		"non-trivial = at least one property besides id and type is set on the root; distinct by canonical reflection dump of the value + entry pair")
 	r.Assume("durations are whole seconds with |d| < 27 days (the xsd duration dependency mis-formats longer ones); floats are n/64 (exact in the writer's %f)")
 	r.Assume("IRIs are absolute URLs, ids within one value are pairwise non-equivalent, multi-language maps use distinct real tags")
+	r.Assume("a public key carries an id or key material (both encoders treat a key that only names an owner as no key)")
 	runRoundTrips(t, r, "json-rt", []codec{codecJSONPkg, codecJSONTyped}, false, r.Pick(4000, 25000))
 
 	// ---- helper types with their own MarshalJSON/UnmarshalJSON pair (the values an actor's endpoints and publicKey, an object's
